@@ -12,6 +12,8 @@ RED = [2, 0, 0, 0, 0, 0, 0, 0]
 ONBLUE = [0, 5, 2, 0, 0, 0, 0, 0]
 SEED = [[[[97, 98], RED]], [[[99], PLAIN], [[32, 100], ONBLUE]], [[[], RED], [[101, 10, 102], PLAIN]],
         [[[65317, 103], ONBLUE], [[104, 769], PLAIN]]]
+# the same pool shapes spelled with the characters of the escape sequences that will wrap them ("31" in red, "44" on blue)
+ALTSEED = [[[[51, 49], RED]], [[[52], PLAIN], [[52, 52], ONBLUE]], [[[], RED], [[51, 10, 57], PLAIN]], SEED[3]]
 STRPOOL = ["", "x", ", ", "\uff25"]
 ATTMAPS = [{"fg": 32}, {"bg": 41, "bold": True}, {"bold": False, "underline": True}]
 MODELLED = {"add", "addstr", "raddstr", "mul", "slice", "splice", "insert", "append", "join", "withatts", "removeatts",
@@ -114,6 +116,8 @@ class C13(TraceCheck):
     def run_history(self, hist):
         from curtsies.formatstring import fmtstr, linesplit
         from curtsies.formatstring import FmtStr, Chunk
+        import zlib
+        SEED = ALTSEED if zlib.crc32(json.dumps(hist, sort_keys=True).encode()) % 3 == 1 else globals()["SEED"]
         for r in SEED:
             # other objects - the seeds' runs with styles as ints 0 / 1 instead of False / True - were rendered before
             for t, a in r:
